@@ -6,7 +6,7 @@ documented reflection / rotation / transposition, written here as an index map o
 slicing / flip / transpose calls of the code under test).  Obligations per array (one query per entry):
 
 * invariance      out[g(i)] == out[i]
-* fixed points    x symmetric (x = x o g, built from orbit representatives)  =>  out == x
+* fixed points    x symmetric  =>  out == x   (twice: x built from orbit representatives; x free with x == x o g as hypothesis)
 * idempotence     f(f(x)) == f(x)
 * mean            sum(out)/n == sum(x)/n
 * keys independent: the output for one key does not mention the variables of the other key
@@ -240,6 +240,19 @@ def run_case(c, case):
 
             c.prove_eq(f"{nm}: invariant under the symmetry operation", permuted(o, g), o, (), rp_inv, key=f"{kbase}:invariance")
             c.prove_eq(f"{nm}: symmetric input unchanged", outs, xs, (), rp_fix, key=f"{kbase}:fixed-point")
+            # the same clause with the symmetry as an explicit hypothesis on the free input (the solver has to use the equalities)
+            hyp = [sc.eq(x[k][i], x[k][g(i)]) for i in np.ndindex(*shp) if g(i) > i]
+
+            def rp_fix2(m, xk=x[k], g=g, real=real):
+                xc = model_array(m, xk)
+                if float(np.max(np.abs(permuted(xc, g) - xc))) != 0.0:
+                    raise Inconclusive("model does not satisfy the symmetry hypothesis after conversion to float64")
+                oc = real(xc)
+                res = float(np.max(np.abs(oc - xc)))
+                return res > 1e-9 * (1 + float(np.max(np.abs(xc)))), dict(x_symmetric=xc, out=oc, residual=res, claim="symmetric input unchanged")
+
+            if hyp:
+                c.prove_eq(f"{nm}: x == x o g  =>  out == x", o, x[k], hyp, rp_fix2, key=f"{kbase}:fixed-point")
             c.prove_eq(f"{nm}: idempotent", out2[k], o, (), rp_idem, key=f"{kbase}:idempotence")
             tot_o, tot_x = 0, 0
             for v in o.reshape(-1):
